@@ -49,6 +49,52 @@ def load_praatio():
     return src
 
 
+_SIMPLE = (str, bytes, int, float, bool, type(None), tuple, list, dict, set, frozenset)
+
+
+def library_state():
+    """What the library keeps OUTSIDE the objects it is handed, as far as it is meant to be constant: the option constants (class attributes of
+    plain value types in praatio.utilities.constants and every other praatio class), module-level names bound to plain values, and the default
+    values in the signatures of praatio's functions and methods.  A call that changes any of this changes what later calls on other objects do.
+    (Memo caches are deliberately not covered: functools caches live in closures, and a module-level dict used as a cache is the business of the
+    history / repeated-read parts.)"""
+    import inspect
+    out = {}
+    for mname, mod in sorted(sys.modules.items()):
+        if not (mname == "praatio" or mname.startswith("praatio.")) or mod is None:
+            continue
+        for k, v in sorted(vars(mod).items()):
+            if k.startswith("__"):
+                continue
+            if isinstance(v, _SIMPLE) and not isinstance(v, dict):
+                out[f"{mname}.{k}"] = repr(v)[:300]
+            elif inspect.isclass(v) and getattr(v, "__module__", "") == mname:
+                for ck, cv in sorted(vars(v).items()):
+                    if not ck.startswith("__") and isinstance(cv, _SIMPLE):
+                        out[f"{mname}.{v.__name__}.{ck}"] = repr(cv)[:300]
+                    elif inspect.isfunction(cv):
+                        out[f"{mname}.{v.__name__}.{ck}()"] = repr((cv.__defaults__, cv.__kwdefaults__))[:300]
+            elif inspect.isfunction(v) and getattr(v, "__module__", "") == mname:
+                out[f"{mname}.{k}()"] = repr((v.__defaults__, v.__kwdefaults__))[:300]
+    return out
+
+
+_LIBSTATE0 = None
+
+
+def _libstate_viol():
+    """compare with the state recorded before the workers were forked; returns a Viol or None"""
+    if _LIBSTATE0 is None:
+        return None
+    now = library_state()
+    diff = [(k, _LIBSTATE0.get(k), now.get(k)) for k in sorted(set(now) | set(_LIBSTATE0)) if _LIBSTATE0.get(k) != now.get(k)]
+    if not diff:
+        return None
+    k, a, b = diff[0]
+    return Viol("library-level-state-changed", f"after the cases of this shard, {k} is {b} (it was {a} when the library was imported): a call changed state "
+                                               f"that later calls on other objects read ({len(diff)} name(s) differ)")
+
+
 def h64(obj) -> int:
     return int.from_bytes(
         hashlib.blake2b(repr(obj).encode("utf-8", "surrogatepass"), digest_size=8).digest(), "big"
@@ -229,6 +275,9 @@ def _work_inputs(args):
             # otherwise take hours); the part is then reported as NOT exhaustive
             acc.aborted = True
             break
+    lv = _libstate_viol()
+    if lv is not None:
+        acc.add(10**12 + shard, ("library-state-after-shard", shard), (1, "!", None, [lv]), seed)
     # determinism self-test: the same case must give the same observation twice
     for idx, case, res in (redo[:3] if acc.aborted else redo):
         if res[1] == "non-termination":
@@ -300,6 +349,8 @@ def run_parts(parts, seed=0, serial=False, log=None):
     _PARTS = list(parts)
     log = log or (lambda *a: None)
     results = {}
+    global _LIBSTATE0
+    _LIBSTATE0 = library_state()
     pool = None
     if not serial and NPROC > 1:
         ctx = multiprocessing.get_context("fork")
